@@ -25,26 +25,40 @@ LEVEL = "exploration"
 
 
 # ======================================================================= part (i)
-def index_cases(tier):
-    syms = "ijkl"
-    maxlen = 2 if tier == "quick" else 3
+def _index_cases(syms, maxlen, maxout, nargs_list, arglen3):
     inds = [()]
     for L in range(1, maxlen + 1):
-        inds += list(itertools.permutations(syms[: 3 if tier == "quick" else 4], L))
-    outs = [o for o in inds if len(o) <= (2 if tier == "quick" else 3)]
+        inds += list(itertools.permutations(syms, L))
+    outs = [o for o in inds if len(o) <= maxout]
     for out in outs:
-        for nargs in (1, 2, 3):
-            argsets = itertools.product([i for i in inds if len(i) >= 1], repeat=nargs)
-            for args in argsets:
+        for nargs in nargs_list:
+            pool = [i for i in inds if 1 <= len(i) <= (arglen3 if nargs == 3 else maxlen)]
+            for args in itertools.product(pool, repeat=nargs):
                 used = set().union(*map(set, args))
-                if nargs == 3 and (tier == "quick" or len(used) > 3) and any(len(a) > 1 for a in args):
-                    continue
-                if nargs == 2 and tier == "quick" and len(args[0]) + len(args[1]) > 3:
+                if nargs == 2 and maxlen >= 3 and len(args[0]) + len(args[1]) > 5:
                     continue
                 new = [s for s in out if s not in used]
                 if len(new) > 1:
                     continue
                 yield out, args, tuple(new)
+
+
+def index_cases(tier):
+    if tier == "quick":
+        seen = set()
+        for c in _index_cases("ijk", 2, 2, (1, 2), 1):
+            seen.add(c)
+            yield c
+        for c in _index_cases("ijk", 2, 2, (3,), 1):
+            yield c
+        return
+    seen = set()
+    gens = [_index_cases("ijk", 3, 3, (1, 2), 1), _index_cases("ijk", 2, 2, (3,), 2), _index_cases("ijkl", 2, 3, (1, 2), 1), _index_cases("ijkl", 1, 2, (3,), 1)]
+    for g in gens:
+        for c in g:
+            if c not in seen:
+                seen.add(c)
+                yield c
 
 
 def ref_keys(out, args, new, dims, nb, out_coords):
@@ -361,11 +375,12 @@ def tree_specs(depth):
     allprev = list(d1)
     for d in range(2, depth + 1):
         cur = []
+        prev_ids = {id(x) for x in prev}
         for k in KINDS:
             n = arity(k)
             pools = [allprev + base] * n
             for args in itertools.product(*pools):
-                if not any(isinstance(a, tuple) and a in prev for a in args):
+                if not any(isinstance(a, tuple) and id(a) in prev_ids for a in args):
                     continue
                 if d >= 3:
                     # depth 3: other arguments are base arrays or the same subtree (keeps the space finite and collision-rich)
